@@ -268,6 +268,23 @@ static void check_all(const char *after) {
 	{
 		size_t so = 0; const uint8_t *sn; size_t sns;
 		int mi = 0;
+		{
+			/* the entries before the first section header: reachable with the "no section" offset */
+			size_t vo = 0; const uint8_t *vn, *vv; size_t vns, vvs;
+			int mj = 0, guard = 0;
+			while (0 == ini_sect_val_enum(g_ini, INI_OFFSET_INVALID, &vo, &vn, &vns, &vv, &vvs)) {
+				while (mj < MN && M[mj].type != LT_SECTION && M[mj].type != LT_VALUE) mj++;
+				if (mj >= MN || M[mj].type != LT_VALUE || guard++ > ML_MAX) { sim_violation("ini-enum", "after %s: enumeration of the entries before the first section yields an entry the model does not have there (\"%.*s\")", after, (int)vns, (const char *)vn); return; }
+				if ((size_t)M[mj].name_len != vns || 0 != memcmp(vn, M[mj].data + M[mj].name_off, vns) ||
+				    (size_t)M[mj].val_len != vvs || 0 != memcmp(vv, M[mj].data + M[mj].val_off, vvs)) {
+					sim_violation("ini-enum", "after %s: enumeration of the entries before the first section out of file order or wrong content at \"%.*s\"", after, (int)vns, (const char *)vn);
+					return;
+				}
+				sim_probe("c17.enum_before_first_section");
+				mj++; vo++;
+			}
+			while (mj < MN && M[mj].type != LT_SECTION) { if (M[mj].type == LT_VALUE) { sim_violation("ini-enum", "after %s: enumeration of the entries before the first section stops before \"%.*s\"", after, M[mj].name_len, (const char *)M[mj].data + M[mj].name_off); return; } mj++; }
+		}
 		while (0 == ini_sect_enum(g_ini, &so, &sn, &sns)) {
 			size_t vo = 0; const uint8_t *vn, *vv; size_t vns, vvs;
 			while (mi < MN && M[mi].type != LT_SECTION) mi++;
@@ -344,7 +361,9 @@ static void do_op(const op_t *op, int idx) {
 			rc = ini_val_set(g_ini, (const uint8_t *)sect, strlen(sect), (const uint8_t *)name, strlen(name), val, (size_t)vl);
 		} else if (0 == strcmp(k, "seti")) {
 			long long num = item_get(it, "num", 0);
-			if (item_get(it, "uns", 0)) { if (num < 0) num = -num; rc = ini_val_set_uint(g_ini, (const uint8_t *)sect, strlen(sect), (const uint8_t *)name, 0 /* strlen inside */, (size_t)num); vl = snprintf((char *)val, sizeof(val), "%llu", (unsigned long long)num); }
+			if (item_get(it, "uns", 0) == 2) { /* the 64 bits as they are: values up to SIZE_MAX */
+				rc = ini_val_set_uint(g_ini, (const uint8_t *)sect, strlen(sect), (const uint8_t *)name, strlen(name), (size_t)(unsigned long long)num); vl = snprintf((char *)val, sizeof(val), "%llu", (unsigned long long)num);
+			} else if (item_get(it, "uns", 0)) { if (num < 0) num = -num; rc = ini_val_set_uint(g_ini, (const uint8_t *)sect, strlen(sect), (const uint8_t *)name, 0 /* strlen inside */, (size_t)num); vl = snprintf((char *)val, sizeof(val), "%llu", (unsigned long long)num); }
 			else { rc = ini_val_set_int(g_ini, (const uint8_t *)sect, 0, (const uint8_t *)name, strlen(name), (ssize_t)num); vl = snprintf((char *)val, sizeof(val), "%lld", num); }
 		} else {
 			vl = (int)item_get(it, "len", 3);
@@ -452,6 +471,15 @@ static void c17_gen(plan_t *p, rng_t *r, int tier) {
 			item_set(&op->it, "n", (long long)rng_below(r, NNAME));
 			item_set(&op->it, "num", (long long)rng_range(r, -100000, 100000) * (rng_chance(r, 200) ? 1000003 : 1));
 			item_set(&op->it, "uns", rng_chance(r, 500));
+			if (rng_chance(r, 300)) {
+				/* digit-count boundaries of the 64-bit range: 10^k - 1, 10^k, the extremes */
+				static const long long edge[] = { 0, 9, 10, 99, 100, 999999999LL, 1000000000LL, 4294967295LL, 4294967296LL, 999999999999999999LL, 1000000000000000000LL,
+				    9223372036854775807LL, (-9223372036854775807LL - 1), -1000000000000000000LL, -999999999999999999LL, -9, -10, -1,
+				    (long long)10000000000000000000ULL, (long long)9999999999999999999ULL, (long long)18446744073709551615ULL, (long long)9223372036854775808ULL };
+				int e = (int)rng_below(r, 22);
+				item_set(&op->it, "num", edge[e]);
+				item_set(&op->it, "uns", e >= 18 ? 2 : (edge[e] >= 0 && rng_chance(r, 500)) ? 2 : 0);
+			}
 		} else if (k < 90) {
 			op = plan_add_op(p, "gen");
 			item_set(&op->it, "mode", (long long)rng_below(r, 6));
